@@ -115,6 +115,12 @@ def _render_check(item):
                 want[cd[cid]['name']] = (cat, S(c['quotient']) if meth == 'qpq' else S(c['vote']))
             if got != want:
                 errs.append('report block "%s": %r vs record %r' % (a['msg'][:40], sorted(got.items())[:4], sorted(want.items())[:4])); break
+        # title, source and comment of the file are the ones in the record (and so in the header compared below)
+        for key, want_v in (('title', p.get('title', 't')), ('profile_source', p.get('source')), ('profile_comment', p.get('comment') if p.get('source') is not None else None)):
+            if want_v is not None:
+                want_v = ' '.join(want_v.split())     # a quoted string is read token by token: runs of blanks denote one blank
+            if rec.get(key) != want_v:
+                errs.append('record %s is %r, the file says %r' % (key, rec.get(key), want_v))
         hexdump = d.encode('utf-8').hex() + '.'
         # the action section of the report, for the comparison with lean/DroopModel/Report.lean: the header is rebuilt from
         # the record exactly as ElectionRecord.report() writes it and cut off
@@ -167,6 +173,11 @@ def C18(run):
     for fam, p, o in cases:
         if o['rule'] in ('wigm', 'meek', 'warren') and rng.random() < 0.4 and o.get('arithmetic') in ('fixed', 'guarded', 'rational'):
             o = dict(o); o['display'] = rng.choice([0, 1, 2, 3, 5, 8, 12])
+        if rng.random() < 0.3:
+            p = dict(p); p['title'] = rng.choice(['An election', 'x', 'Ward 7 by-election 2011'])
+            p['source'] = rng.choice(['returning officer', 'a b  c', 's'])
+            if rng.random() < 0.6:
+                p['comment'] = rng.choice(['recount', 'two  words', 'c'])
         items.append((p, o))
     # minimised past failures first
     try:
